@@ -58,11 +58,21 @@ lazy_static! {
                 for selection in selections.drain(..) {
                     match selection {
                         IpcSelectionResult::MessageReceived(id, msg) => {
+                            #[cfg(ipc_channel_verif)]
+                            crate::verif::point(
+                                "async.msg",
+                                &[
+                                    ("id", id as i64),
+                                    ("known", senders.contains_key(&id) as i64),
+                                ],
+                            );
                             if let Some(sender) = senders.get(&id) {
                                 let _ = sender.unbounded_send(msg);
                             }
                         },
                         IpcSelectionResult::ChannelClosed(id) => {
+                            #[cfg(ipc_channel_verif)]
+                            crate::verif::point("async.closed", &[("id", id as i64)]);
                             senders.remove(&id);
                         },
                     }
@@ -71,6 +81,8 @@ lazy_static! {
                     while let Ok(Some((receiver, sender))) = recv.try_next() {
                         if let Ok(id) = receivers.add_opaque(receiver) {
                             senders.insert(id, sender);
+                            #[cfg(ipc_channel_verif)]
+                            crate::verif::point("async.install", &[("id", id as i64)]);
                         }
                     }
                 }
@@ -92,6 +104,8 @@ where
         let opaque = self.to_opaque();
         let (send, recv) = futures::channel::mpsc::unbounded();
         let _ = ROUTER.add_route.unbounded_send((opaque, send));
+        #[cfg(ipc_channel_verif)]
+        crate::verif::point("async.to_stream.queued", &[]);
         if let Ok(waker) = ROUTER.wakeup.lock() {
             let _ = waker.send(());
         }
